@@ -15,6 +15,7 @@ import (
 	"strconv"
 	"strings"
 	"sync"
+	"syscall"
 	"time"
 
 	wt "github.com/hnakamur/whispertool"
@@ -166,13 +167,16 @@ type Cmd struct {
 }
 
 type cmdResult struct {
-	err    error
-	panics []string
+	err     error
+	aborted bool // the command never returned (deadlock); err is set to errDeadlock
+	panics  []string
 	out    string // contents of the text-out file
 	now    int64  // clock when the command started
 }
 
 const simURL = "http://sim"
+
+var errDeadlock = errors.New("wsim: the command did not terminate (deadlock detected by the scheduler)")
 
 func (c Cmd) window(now int64) (from, until int64) {
 	if c.HasFrom {
@@ -338,6 +342,9 @@ func buildCommand(e *Env, c Cmd, now int64, tag string) (cmd.Command, string, er
 		}
 		fs := flag.NewFlagSet(c.Kind, flag.ContinueOnError)
 		fs.SetOutput(io.Discard)
+		if os.Getenv("WSIM_DEBUG") != "" {
+			fmt.Fprintf(os.Stderr, "DEBUG args %q\n", args)
+		}
 		if err := pc.Parse(fs, args); err != nil {
 			return nil, tout, &parseError{err}
 		}
@@ -419,26 +426,57 @@ func (r *cliRunner) run(cmds []Cmd, tags []string) []*cmdResult {
 		if tout != "" && tout != "-" && tout != "/dev/full" {
 			os.Remove(tout)
 		}
+		res[i].aborted = true
+		res[i].err = errDeadlock
 		r.s.Go(fmt.Sprintf("A%d", i), func() {
 			defer func() {
 				if x := recover(); x != nil {
 					if IsAbort(x) {
 						panic(x)
 					}
+					res[i].aborted = false
+					res[i].err = nil
 					res[i].panics = append(res[i].panics, fmt.Sprintf("%v", x))
 				}
 			}()
-			res[i].err = command.Execute()
+			err := command.Execute()
+			res[i].err = err
+			res[i].aborted = false
 		})
 		_ = tout
 	}
 	np := len(r.s.Panics)
+	var fds []int
+	prevTrace := r.s.LockTrace
+	r.s.LockTrace = func(ev string, g *G, fd int) {
+		if ev == "acquired" {
+			fds = append(fds, fd)
+		}
+		if prevTrace != nil {
+			prevTrace(ev, g, fd)
+		}
+	}
 	r.s.Install()
 	r.s.Run()
 	Uninstall()
+	r.s.LockTrace = prevTrace
+	// every command stands for a separate process: when the process is gone
+	// its locks are gone, even those of handles the command never closed
+	// (the descriptors themselves are closed later by their finalizers)
+	for _, fd := range fds {
+		syscall.Flock(fd, syscall.LOCK_UN)
+	}
+	for i := range res {
+		if res[i].aborted {
+			r.e.Skip("command-did-not-terminate")
+		}
+	}
 	for i := range cmds {
 		if tout := textOutPath(r.e, cmds[i], tags[i]); tout != "" && tout != "-" && tout != "/dev/full" {
 			res[i].out = string(readFile(tout))
+			if os.Getenv("WSIM_DEBUG") != "" {
+				fmt.Fprintf(os.Stderr, "DEBUG run %s %s: tout=%s len=%d err=%v panics=%v\n", tags[i], cmds[i].Kind, tout, len(res[i].out), res[i].err, res[i].panics)
+			}
 		}
 	}
 	if len(r.s.Panics) > np {
